@@ -4,25 +4,27 @@ import json, subprocess
 props=[json.loads(l)['id'] for l in open('/verif/properties.jsonl')]
 LEVEL_NOTE=("Trusted: the goavc VC generator, go/ssa v0.29.0, the SMT solvers, and every assumed contract for a dependency "
  "(/verif/models/*.spec; listed per run in the evidence). Integers are mathematical, execution is sequential, termination is not proved.")
-T="contract-based deductive verification: WP-style VC generation over go/ssa + SMT (z3, cvc5)"
+T=("contract-based deductive verification: WP-style VC generation over go/ssa of the real /repo functions against contracts kept in build-tagged comment files, "
+   "obligations discharged by z3 4.8.12 / z3 5.1.0 / cvc5 1.0; when an edited function no longer fits its loop invariants the function is decided by a bounded stand-in "
+   "(every loop unrolled, at most 4 entries per loop head), printed as BOUNDED and never counted as proved")
 claimed={
- "C01": dict(text="Necessary conditions only, for two mechanisms: NameScope.Unique/HashedUnique never return an identifier that is already in use and record it (whole-map postconditions, so two calls cannot collide; same hash gives the same name), and fixReservedGo never returns a Go keyword, predeclared identifier or imported package name, and every non-empty identifier Goify returns has passed through it (or is one of the two fixed defaults). That every accepted design generates code that compiles (templates, type-correctness of emitted Go) cannot be stated as a contract and is not claimed.",
+ "C01": dict(text="Necessary conditions only, for two mechanisms: NameScope.Unique/HashedUnique never return an identifier that is already in use and record it (whole-map postconditions, so two calls cannot collide; same hash gives the same name), and fixReservedGo never returns a Go keyword, predeclared identifier or imported package name, and every non-empty identifier Goify returns has passed through it (or is one of the two fixed defaults); the validation generator names runtime format constants that exist (constant); example lengths are never negative (NewLength, found and fixed a crash of example generation). That every accepted design generates code that compiles (templates, type-correctness of emitted Go) cannot be stated as a contract and is not claimed.",
              ref="§3 C01", technique=T),
  "C02": dict(text="Necessary conditions only, on the design-model and runtime functions the round trip rests on: the attribute-name / wire-name tables of a mapped attribute are read and written consistently (ElemName, KeyName, Map, Remap, DupMappedAtt: what one table records the other inverts, so KeyName(ElemName(k)) = k), an attribute moved to a header/parameter/cookie is removed from the body object and its required list exactly (Object.Delete, RemoveRequired, removeAttributes), and path variables are captured decoded once under their registered name (the router contracts of C16). That the generated client encoder and server decoder are inverse for every design is a property of generated programs and is not claimed.",
              ref="§3 C02", technique=T),
- "C05": dict(text="Runtime half only: the default error encoder writes exactly one header and one body, the status is the one the response object reports, plain errors become a 500 fault, service errors map through the flag table, decoding-error constructors give 400/415 (lemmas over the table). Declared errors are generated code and are not covered.",
+ "C05": dict(text="Runtime half: the default error encoder writes exactly one header and one body, the status is the one the response object reports, plain errors become a 500 fault, service errors map through the flag table, decoding-error constructors give 400/415 (lemmas over the table). Design half: HTTPEndpointExpr.Prepare builds the endpoint's error table so that it only grows and an entry is appended only for a name not mapped yet (the endpoint's own mapping wins over the service's and the API's), copies keep name and status. The generated per-error encoders/decoders are generated code and are not covered.",
              ref="§3 C05", technique=T),
- "C06": dict(text="Design/runtime half only: requirement inheritance and override in MethodExpr.Finalize (NoSecurity clears, own requirements win, service then API requirements are copied element-wise by copyReqs), scope validation (a scheme validates exactly when every required scope is presented). The generated endpoint wrappers (any-requirement/all-schemes evaluation, credential extraction) are generated code and are not covered.",
+ "C06": dict(text="Design/runtime half only: requirement inheritance and override in MethodExpr.Finalize (NoSecurity clears, own requirements win, service then API requirements are copied element-wise by copyReqs), scope validation (a scheme validates exactly when every required scope is presented), and the generator's per-method requirement data lists every scheme of each requirement with its own scopes (SchemesData.Append, buildMethodData). The generated endpoint wrappers (any-requirement/all-schemes evaluation, credential extraction) are generated code and are not covered.",
              ref="§3 C06", technique=T),
- "C09": dict(text="Three mechanisms only: (1) the structural hash functions contain no order-dependent range over a map (commutativity obligation for every map range in hashUserType/hashObject), (2) File.Render leaves an existing SkipExist file untouched (ghost file-system model: no mkdir/open/write reached), (3) comparators handed to sort.Slice order the slice being sorted. Template rendering, directory clean-up and process-level repeatability are not covered.",
+ "C09": dict(text="Three mechanisms only: (1) every range over a map in the generator packages (codegen, codegen/service, codegen/generator, http/codegen, http/codegen/openapi and /v2 /v3) and in the structural hash is proved independent of the iteration order (commutativity of the loop body, or keys collected and sorted before use) or is listed in a per-package census as not proved; a map range that is neither is a violation, (2) File.Render leaves an existing SkipExist file untouched (ghost file-system model: no mkdir/open/write reached) and every example scaffold builder returns a file marked SkipExist, (3) comparators handed to sort.Slice order the slice being sorted. Template rendering, directory clean-up and process-level repeatability are not covered.",
              ref="§3 C09", technique=T),
  "C10": dict(text="Two mechanisms only: design validation accepts a gRPC message only when every (non-union) attribute has a field number and no number is used twice (validateRPCTags), the proto generator emits the number validation checked (rpcTag reads the last rpc:tag through FieldTag), and the runtime unary handler invokes the endpoint only after the request decoder accepted the message, with the decoded request (rejected messages never reach user code). Well-formedness of the emitted .proto text and the generated conversion code are not covered (protoc absent, generated programs).",
              ref="§3 C10", technique=T),
- "C11": dict(text="RunDSL: the four phases are global (ghost phase automaton: every WalkSets/prepare/validate/finalize call-site precondition is a barrier obligation), every root registered before the run completes all four phases when nil is returned, finalization never starts on a failed design. The environment (WalkSets callbacks, set runners) and the dependency sort Roots() are assumed contracts; Roots() additionally has a bounded stand-in (all digraphs <= 4 roots x all registration orders), labelled bounded and not counted as proved.",
+ "C11": dict(text="RunDSL: the four phases are global (ghost phase automaton: every WalkSets/prepare/validate/finalize call-site precondition is a barrier obligation), every root registered before the run completes all four phases when nil is returned, finalization never starts on a failed design. The set runners (runSet, prepareSet, validateSet, finalizeSet) are verified; Roots() is proved to report a root that depends on itself and to list every registered root (under stated preconditions: names identify roots, dependencies are registered); the WalkSets callbacks are assumed contracts; dependency order and longer cycles of Roots() have a bounded stand-in (all digraphs <= 4 roots x all registration orders), labelled bounded and not counted as proved.",
              ref="§3 C11", technique=T+"; bounded exhaustive execution for Roots()"),
- "C13": dict(text="Stated parts: permutation invariance of the hash (the comparators handed to sort.Slice are strict orders by attribute name, the slices hashObject/hashUnion range over are in ascending name order and as long as the declared list, and every iteration appends exactly separator+name+separator+hash(type, same flags): per-iteration relations, the fold follows by induction on the iteration count, which is not machine checked), run-to-run determinism (no order-dependent map range), every attribute DupType installs in a copied array/map/union/object/user type is one produced by DupAttribute (store and call-site discipline on the real body), freshness of every node DupAttribute / ValidationExpr.Dup / MetaExpr.Dup allocate and their frames (nothing pre-existing is written). DupType's frame is assumed (trusted) for the mutual recursion. No global injectivity of the hash, no termination.",
+ "C13": dict(text="Stated parts: permutation invariance of the hash (the comparators handed to sort.Slice are strict orders by attribute name, the slices hashObject/hashUnion range over are in ascending name order and as long as the declared list, and every iteration appends exactly separator+name+separator+hash(type, same flags): per-iteration relations, the fold follows by induction on the iteration count, which is not machine checked), run-to-run determinism (no order-dependent map range), every attribute DupType installs in a copied array/map/union/object/user type is one produced by DupAttribute (store and call-site discipline on the real body), freshness of every node DupAttribute / ValidationExpr.Dup / MetaExpr.Dup allocate and their frames (nothing pre-existing is written). DupType is verified against a memo-table invariant (every memoised type is a copy made by this dupper, keyed by type ID); Equal is defined through the hash; the recursive hash dispatcher is assumed to be a function of its arguments (the dispatch itself, same flags to every composite case, is proved). No global injectivity of the hash, no termination.",
              ref="§3 C13", technique=T),
- "C14": dict(text="Schema side only: the JSON-schema keywords written by initAttributeValidation (OpenAPI 2) and by the validation tail of schemafy (OpenAPI 3) mirror the design's validation keyword for keyword (enum, format, pattern, inclusive/exclusive bounds with the same pointer, i.e. the same number and sense) and length bounds land on the keyword that applies to the kind of value; the OpenAPI 2 required list receives, in order, exactly the required names of the design that are not excluded from generation (per-iteration relation; MustGenerate is proved to read the last generate flag). That the server accepts exactly the documented inputs (C04 side) is not decided.",
+ "C14": dict(text="Schema side only: the JSON-schema keywords written by initAttributeValidation (OpenAPI 2) and by the validation tail of schemafy (OpenAPI 3) mirror the design's validation keyword for keyword (enum, format, pattern, inclusive/exclusive bounds with the same pointer, i.e. the same number and sense) and length bounds land on the keyword that applies to the kind of value; the OpenAPI 2 required list receives, in order, exactly the required names of the design that are not excluded from generation (per-iteration relation; MustGenerate is proved to read the last generate flag); every OpenAPI 3 path/query/header/cookie parameter mirrors the name, location and required flag the server's decoder data is built from (paramFor, the walker closures, WalkMappedAttr, QueryParams, generatedRequiredValidation), and a user type is documented by reference only under its structural hash. That the server accepts exactly the documented inputs (C04 side) is not decided.",
              ref="§3 C14", technique=T),
  "C15": dict(text="Encoder/decoder agreement through the Content-Type header actually set, JSON fall-back, non-nil encoder, request decoder selection and 415 chain, proved for all header/context values against an uninterpreted mime.ParseMediaType with audited axioms.",
              ref="§3 C15", technique=T),
